@@ -202,6 +202,59 @@ def xnlri_to_coq(c):
     if x[0] == 17: return 'run_api_mup_case %s (AMupT2 %s %s %s %s)' % (cN(fam), api_rd_to_coq(x[1]), cN(x[2]), cstr(x[3]), cN(x[4]))
     raise ValueError(x)
 
+
+# ---- kind 8, tag 18: LsAddrPrefix messages (BGP-LS NLRI from the API side; no model: oracle only)
+LSF = (16388 << 16) | 71
+def _lsn_ip4(b): return c17typed._ip4_ok(b)
+def _lsn_ip6(b): return c17typed._ip6_ok(b)
+
+def _igp_id_ok(b):
+    if _lsn_ip4(b): return True
+    try: t = bytes(b).decode('ascii')
+    except UnicodeDecodeError: return False
+    p = t.split('.')
+    hexok = lambda s, n: len(s) == n and all(ch in '0123456789abcdefABCDEF' for ch in s)     # from_str_radix also takes a leading '+', which len() == n leaves no room for... except "+abc"
+    if len(p) == 3: return all(hexok(q, 4) or (len(q) == 4 and q[0] == '+' and hexok(q[1:], 3)) for q in p)
+    if len(p) == 4: return all(hexok(q, 4) or (len(q) == 4 and q[0] == '+' and hexok(q[1:], 3)) for q in p[:3]) and (hexok(p[3], 2) or (len(p[3]) == 2 and p[3][0] == '+' and hexok(p[3][1:], 1)))
+    return False
+
+def lsn_must_refuse(x):
+    """why an LsAddrPrefix message cannot be stored faithfully (None when it can)"""
+    _, typ, proto, ident, inner = x
+    if not 0 <= proto <= 255: return 'protocol id %d' % proto
+    if inner[0] == 0:
+        return None if 0 <= typ <= 65535 else 'route type %d' % typ
+    nodes = [inner[1]] + ([inner[2]] if inner[0] == 2 else [])
+    for n in nodes:
+        if not n: return None       # refused anyway (missing node)
+        if n[4] and not _igp_id_ok(n[4]): return None      # refused by parse_igp_router_id
+        if n[5] and not _lsn_ip4(n[5]): return None
+    if inner[0] == 2 and inner[3]:
+        d = inner[3]
+        if (d[2] and not _lsn_ip4(d[2])) or (d[3] and not _lsn_ip4(d[3])): return 'link descriptor address that is not an IPv4 address'
+        if (d[4] and not _lsn_ip6(d[4])) or (d[5] and not _lsn_ip6(d[5])): return 'link descriptor address that is not an IPv6 address'
+    if inner[0] in (3, 4) and inner[2]:
+        reach, ort = inner[2]
+        if not 0 <= ort <= 255: return 'OSPF route type %d' % ort
+        w = 32 if inner[0] == 3 else 128
+        for r in reach:
+            try: t = bytes(r).decode('ascii')
+            except UnicodeDecodeError: return 'reachability text'
+            if '/' not in t: return 'reachability entry without a length'
+            a, ln = t.rsplit('/', 1)
+            if not (_lsn_ip4(a.encode()) if w == 32 else _lsn_ip6(a.encode())): return 'reachability address of the wrong family / not an address'
+            if not (ln.lstrip('+').isdigit() and ln.count('+') <= (1 if ln.startswith('+') else 0) and int(ln) <= 255): return 'reachability length text'
+            if int(ln) > w: return 'reachability prefix length %s beyond %d' % (ln, w)
+            import ipaddress
+            v = int(ipaddress.ip_address(a))
+            if v & ((1 << (w - 8 * ((int(ln) + 7) // 8))) - 1): return 'reachability address with octets beyond the prefix length'
+    if inner[0] == 5:
+        if inner[2] and any(not _lsn_ip6(s) for s in inner[2][0]): return 'SRv6 SID that is not an IPv6 address'
+        if inner[3] and any(m > 0xffff for m in inner[3][0]): return 'multi-topology id beyond 16 bits'
+        sids = inner[2][0] if inner[2] else []
+        if inner[3] and inner[3][0] and len(inner[3][0]) != len(sids): return '%d multi-topology ids for %d SIDs' % (len(inner[3][0]), len(sids))
+    return None
+
 def xnlri_known_class(c, obs):
     """RTC values of the open class C17-rtc (as printed in the wire bytes of the accepted NLRI)"""
     b = obs[2]
@@ -221,6 +274,7 @@ def xnlri_family_wrong(c):
     if x[0] == 11: return fam not in (E.FSV4, E.FSV6)
     if x[0] == 12: return fam != (E.SR4 if len(x[4]) == 4 else E.SR6)
     if x[0] == 13: return fam != E.RTCF
+    if x[0] == 18: return fam != E.LSF
     return fam not in (E.MUP4, E.MUP6)
 
 def xnlri_unfaithful(c, listed):
@@ -247,6 +301,10 @@ def oracle_xnlri(c, obs):
     why = xnlri_unfaithful(c, obs[5])
     if why:
         return 'not stored faithfully: ' + why
+    if c['x'][0] == 18:
+        why = lsn_must_refuse(expand(c['x']))
+        if why:
+            return 'an LsAddrPrefix message that cannot be stored faithfully was accepted: ' + why
     text = bytes(obs[1]).decode('latin1')[:80]
     if obs[2] == [-1]: return 'an accepted NLRI panics its encoder: ' + text
     if obs[3] == [-1]: return 'an accepted NLRI panics the decoder when read back: ' + text
@@ -255,6 +313,7 @@ def oracle_xnlri(c, obs):
     cls = xnlri_known_class(c, obs)
     tag = 'xnlri[%s]: ' % cls if cls else 'xnlri: '
     if obs[3] != 1: return tag + 'an accepted NLRI does not decode back from its own wire encoding to the same value (not one a decoder can produce): ' + text
+    if obs[4] != 0 and c['x'][0] == 18: tag = 'xnlri[C17-ls-nlri]: '      # the open class: a held BGP-LS NLRI (0 / "" mean absent in the API form)
     if obs[4] != 0: return tag + 'an accepted NLRI is %s when listed and added again: %s' % ('refused' if obs[4] == 2 else 'changed', text)
     return None
 
@@ -803,13 +862,13 @@ class Prop:
             '(2) one API NLRI message through net_from_api, then Nlri::encode; (3) one internal IPv4/IPv6/labeled NLRI through nlri_to_api / net_from_api; '
             '(5) a whole api::Path through GrpcService::local_path, then Table::insert; (6) one API EVPN message through net_from_api, checked to decode back from its own wire encoding; '
             '(7) one internal EVPN route through nlri_to_api / net_from_api; (8) one API NLRI message of the flowspec (plain / VPN), SR Policy, RTC and MUP families through net_from_api and the family check of local_path, '
-            'then Nlri::encode, the repository decoder on those bytes (must give the accepted value back), nlri_to_api and net_from_api again; flowspec / SR Policy / RTC / MUP are modelled (accepted?, wire bytes, listed form compared); '
+            'then Nlri::encode, the repository decoder on those bytes (must give the accepted value back), nlri_to_api and net_from_api again; flowspec / SR Policy / RTC / MUP are modelled (accepted?, wire bytes, listed form compared); LsAddrPrefix (BGP-LS) messages go the same way and are judged by the oracle only (every field within its wire width or refused, decodes back; relisting is inside the open class C17-ls-nlri); '
             '(9) one typed PrefixSid, TunnelEncap or LsAttribute message through attr_from_api, then the packet decoder on the stored value, attr_to_api and attr_from_api again: PrefixSid and TunnelEncap are modelled (accepted?, value octets, listing compared; '
             'a PrefixSid message whose prost maps hold several keys is compared on accepted? only, their iteration order is not fixed) and judged by a normal-form oracle (refused, or listed as given); the LsAttribute message is NOT modelled and judged by the oracle only (every field within its wire width or refused, decoder reads the value back, relists unchanged); '
             'gen/c17typed.py ENUMERATES 74 further classes (696 cases: every oneof unset, every bounded field at bound and bound + 1, SID lengths 0/4/15/16/17, every flag alone, each one-per-path sub-TLV twice, '
             'names around the two-octet length, values around 65535 octets, tunnel types around u16; LS attribute: SR ranges around the 20-bit label / 24-bit size / u32 wrap, delays and IGP metric around 24 bits, labels around 20 bits, weights / flags / algorithms around 255, every address spelling, 0/1/7/8/9 unreserved-bandwidth values); '
             'these kinds are modelled and compared with the model value for value. '
-            'gen/c17enum.py ENUMERATES 120 classes (about 4200 cases) on every run, one per clause / branch / comparison of the anchored functions with values on both sides of each boundary '
+            'gen/c17enum.py ENUMERATES 138 classes (about 4400 cases) on every run, one per clause / branch / comparison of the anchored functions with values on both sides of each boundary '
             '(every flags octet; value lengths around each type rule; segment counts 0/1/63/64/65/127/128/129/254/255/256/257 with AS numbers whose octets look like segment headers; 255/256 and 65535/65536-octet values; '
             'every extended-community type octet x sub-type x reserved-bit pattern; every bounded API field at bound and bound+1; every IPv4/IPv6/MAC spelling; label stacks and prefix lengths around the one-octet NLRI length; '
             'flowspec rule bodies of 239/240/241 and 4095/4096/4097 octets; MP_REACH header lengths; address-family edges); they are tagged enum:<class> in input_distribution. '
@@ -912,6 +971,8 @@ class Prop:
             cases.append(gen_api_case(rng))
         for _ in range(400 if tier == 'quick' else 4000):
             cases.append(c17typed.gen_typed_case(rng))
+        for _ in range(150 if tier == 'quick' else 1500):
+            cases.append(c17enum.gen_ls_nlri_case(rng))
         nn = 500 if tier == 'quick' else 5000
         for _ in range(nn):
             cases.append(gen_api_nlri_case(rng))
@@ -1144,7 +1205,7 @@ class Prop:
         if c['k'] == 7:
             return ['evpn', 'evpn:type%d' % c['e'][0]]
         if c['k'] == 8:
-            return ['xnlri', 'xnlri:%s:%s' % ({10: 'flowspec', 11: 'flowspec_vpn', 12: 'srpolicy', 13: 'rtc', 14: 'mup_isd', 15: 'mup_dsd', 16: 'mup_t1st', 17: 'mup_t2st'}.get(c['x'][0]), 'accepted' if obs and obs[0] == 1 else 'refused')]
+            return ['xnlri', 'xnlri:%s:%s' % ({10: 'flowspec', 11: 'flowspec_vpn', 12: 'srpolicy', 13: 'rtc', 14: 'mup_isd', 15: 'mup_dsd', 16: 'mup_t1st', 17: 'mup_t2st', 18: 'ls_nlri'}.get(c['x'][0]), 'accepted' if obs and obs[0] == 1 else 'refused')]
         if c['k'] == 9:
             return ['typed', 'typed:%s:%s' % ({0: 'prefix_sid', 1: 'tunnel_encap', 2: 'ls_attribute'}[c['w']], 'accepted' if obs and obs[0] == 1 else 'refused')]
         if c['k'] == 5:
